@@ -260,6 +260,19 @@ def run(ctx):
     else:
         ditems += [(b'Zm9v' + g, 'valid-then-reduced-group') for g in groups[::7]]
     check_dec(ctx, ditems)
+    # ... and 4-symbol groups over the FULL alphabet plus padding (65^4 groups: sampled; the theorems cover all of them):
+    # padded final groups with every symbol in front, padding in non-final positions
+    full = ALPH + b'='
+    fitems = []
+    for _ in range(400000 if thorough else 20000 * ctx.scale):
+        g = bytes(rng.choice(full) for _ in range(4))
+        fitems.append((g, 'full-alphabet-group'))
+    for a in ALPH:                                           # every xx== and xxx= final group
+        for b2 in ALPH:
+            fitems.append((bytes([a, b2]) + b'==', 'padded-2'))
+            if thorough or (a + b2) % 5 == 0:
+                fitems.append((bytes([a, b2, rng.choice(ALPH)]) + b'=', 'padded-1'))
+    check_dec(ctx, fitems)
 
     # 4. malformed and near-valid strings
     mitems = []
